@@ -346,6 +346,7 @@ type frame struct {
 	fn    *fun
 	args  []string // normalised actual arguments; nil for the entry function (§k)
 	depth int
+	async bool // the call that opened this frame sits inside a go statement / stored closure of a callee
 }
 
 const (
@@ -531,13 +532,17 @@ const maxInline = 5
 
 // event is something found in the entry function or, through calls, below it.
 type event struct {
-	kind string    // "write", "index", "mu"
+	kind string    // "write", "index", "mu", "hmem" (field of a *page_header / *node), "hmem?" (memory reached through a pointer canon.go cannot classify)
 	pos  token.Pos // position IN THE ENTRY FUNCTION (of the statement itself, or of the outermost call that leads to it)
 	end  token.Pos
 	a, b string // write: lhs, rhs · index: field, index expr · mu: method, index expr
 	node ast.Node
 	top  bool   // found directly in the entry function
 	via  string // call path, for messages
+	// async: the event lies inside a `go` statement or a function literal that is not called on the spot, in a
+	// function reached through a call — it does NOT run at the position of that call
+	async bool
+	lhs   bool // hmem / hmem?: the access is the target of an assignment / ++ / -- / & (a write or an escape)
 }
 
 func (w *world) walk(entry *fun, visit func(event)) {
@@ -555,9 +560,28 @@ func (w *world) walk(entry *fun, visit func(event)) {
 			}
 			return top, topEnd
 		}
+		asyncN := 0
+		lhsOf := map[ast.Node]bool{}  // selector / star expressions that are written (or whose address is taken)
+		called := map[ast.Node]bool{} // function literals called on the spot, selector expressions that are the callee of a call
+		markLhs := func(e ast.Expr) {
+			for {
+				e = stripParens(e)
+				lhsOf[e] = true
+				// a write to x.f.g / x.f[i] writes inside x.f
+				switch y := e.(type) {
+				case *ast.SelectorExpr:
+					e = y.X
+					continue
+				case *ast.IndexExpr:
+					e = y.X
+					continue
+				}
+				return
+			}
+		}
 		emit := func(kind string, n ast.Node, a, b string) {
 			p, e := at(n)
-			visit(event{kind: kind, pos: p, end: e, a: a, b: b, node: n, top: fr.depth == 0, via: via})
+			visit(event{kind: kind, pos: p, end: e, a: a, b: b, node: n, top: fr.depth == 0, via: via, async: fr.async || asyncN > 0, lhs: lhsOf[n]})
 		}
 		isHeapLhs := func(e ast.Expr) bool {
 			switch stripParens(e).(type) {
@@ -577,9 +601,34 @@ func (w *world) walk(entry *fun, visit func(event)) {
 					deferred = append(deferred, s.Call)
 					return false
 				}
+			case *ast.GoStmt:
+				if fr.depth > 0 {
+					asyncN++
+					ast.Inspect(s.Call, visitNode)
+					asyncN--
+					return false
+				}
+			case *ast.FuncLit:
+				if fr.depth > 0 && !called[s] {
+					asyncN++
+					ast.Inspect(s.Body, visitNode)
+					asyncN--
+					return false
+				}
+			case *ast.UnaryExpr:
+				if s.Op == token.AND {
+					markLhs(s.X)
+				}
+			case *ast.SelectorExpr:
+				fr.memAccess(s, called[s], emit)
+			case *ast.StarExpr:
+				fr.derefAccess(s, emit)
 			case *ast.AssignStmt:
 				if s.Tok == token.DEFINE {
 					return true
+				}
+				for _, l := range s.Lhs {
+					markLhs(l)
 				}
 				for i, l := range s.Lhs {
 					if !isHeapLhs(l) {
@@ -597,6 +646,7 @@ func (w *world) walk(entry *fun, visit func(event)) {
 					emit("write", s, lhs, rhs)
 				}
 			case *ast.IncDecStmt:
+				markLhs(s.X)
 				if isHeapLhs(s.X) {
 					lhs := fr.canon(s.X)
 					op := "+"
@@ -610,6 +660,7 @@ func (w *world) walk(entry *fun, visit func(event)) {
 					emit("index", s, se.Sel.Name, fr.canon(s.Index))
 				}
 			case *ast.CallExpr:
+				called[stripParens(s.Fun)] = true
 				se, ok := stripParens(s.Fun).(*ast.SelectorExpr)
 				// a.classMu[E].Lock() / Unlock()
 				if ok {
@@ -646,7 +697,7 @@ func (w *world) walk(entry *fun, visit func(event)) {
 					args = append(args, fr.canon(a))
 				}
 				p, e := at(s)
-				rec(&frame{fn: callee, args: args, depth: fr.depth + 1}, p, e, via+"→"+strings.TrimPrefix(callee.name, "Allocator."))
+				rec(&frame{fn: callee, args: args, depth: fr.depth + 1, async: fr.async || asyncN > 0}, p, e, via+"→"+strings.TrimPrefix(callee.name, "Allocator."))
 			}
 			return true
 		}
@@ -658,6 +709,50 @@ func (w *world) walk(entry *fun, visit func(event)) {
 	rec(&frame{fn: entry}, 0, 0, strings.TrimPrefix(entry.name, "Allocator."))
 }
 
+// memAccess classifies `X.f` by the normal form of X:
+//   a, a.…            fields of the Allocator itself (its per-class slices are "index" events)        — nothing
+//   pkg.Name           package-qualified name                                                          — nothing
+//   S(…)               the slice header at the start of a slot: belongs to the caller once handed out — nothing
+//   H(…) / N(…)        a field of a page header / of a free-list node in mmap'd memory                — "hmem"
+//   anything else      a pointer whose pointee canon.go cannot name (a local assigned more than once, a
+//                      call result, …); unless X.f is the callee of a call (a method call: page_header and
+//                      node have no methods, checked in memoryWorld)                                   — "hmem?"
+func (fr *frame) memAccess(s *ast.SelectorExpr, isCallee bool, emit func(kind string, n ast.Node, a, b string)) {
+	if id, ok := stripParens(s.X).(*ast.Ident); ok && fr.fn.resolve(id) == nil {
+		return // package-qualified or a package-level variable's field
+	}
+	c := fr.canon(s.X)
+	switch {
+	case c == "a" || strings.HasPrefix(c, "a.") || strings.HasPrefix(c, "a["):
+		return
+	case strings.HasPrefix(c, "S("):
+		return
+	case strings.HasPrefix(c, "H(") || strings.HasPrefix(c, "N("):
+		emit("hmem", s, c, s.Sel.Name)
+	default:
+		if !isCallee {
+			emit("hmem?", s, c, s.Sel.Name)
+		}
+	}
+}
+
+// derefAccess: `*E` in expression position with E not a type name reads or writes raw memory.
+func (fr *frame) derefAccess(s *ast.StarExpr, emit func(kind string, n ast.Node, a, b string)) {
+	switch x := stripParens(s.X).(type) {
+	case *ast.Ident:
+		if fr.fn.resolve(x) == nil {
+			return // *T: a type
+		}
+	case *ast.SelectorExpr:
+		if id, ok := x.X.(*ast.Ident); ok && fr.fn.resolve(id) == nil {
+			return // *pkg.T
+		}
+	case *ast.ArrayType, *ast.StarExpr, *ast.MapType, *ast.StructType, *ast.FuncType, *ast.ChanType, *ast.InterfaceType:
+		return
+	}
+	emit("hmem?", s, fr.canon(s.X), "*")
+}
+
 func memoryWorld() *world {
 	var files []*vtrans.File
 	for _, fnm := range []string{"malloc.go", "free.go", "memory.go", "defrag.go"} {
@@ -666,6 +761,19 @@ func memoryWorld() *world {
 			die(err)
 		}
 		files = append(files, f)
+		// memAccess treats `x.m(…)` on an unclassified x as harmless: true as long as the types that live in
+		// mmap'd memory have no methods
+		for _, d := range f.AST.Decls {
+			if fd, ok := d.(*ast.FuncDecl); ok && fd.Recv != nil && len(fd.Recv.List) == 1 {
+				t := fd.Recv.List[0].Type
+				if st, ok := t.(*ast.StarExpr); ok {
+					t = st.X
+				}
+				if id, ok := t.(*ast.Ident); ok && (id.Name == "page_header" || id.Name == "node") {
+					die(fmt.Errorf("%s%s: %s has a method (%s); the lock analysis was written for header / node memory accessed through field selectors only", dir, fnm, id.Name, fd.Name.Name))
+				}
+			}
+		}
 	}
 	return newWorld(files...)
 }
